@@ -1555,7 +1555,7 @@ prop(dict(
     shards={"quick": 1, "thorough": 8},
     nontrivial=lambda c: True,
     class_of=lambda c: c["class"],
-    rule="GROWTH: 2-16 packetizers that share ONE sequencer, each driven from its own goroutine (40 / 400 calls of 0-4 packets each), started before, at and after the wrap; "
+    rule="GROWTH: 2-16 packetizers that share ONE sequencer, each driven from its own goroutine (40 / 400 Packetize / GeneratePadding calls of 0-4 packets each), started before, at and after the wrap; "
          "TLC explores every interleaving of the model (3 packetizers x 2 calls x 2 numbers, modulus 16) and two specification mutants (numbers counted locally after the first draw "
          "of a call; an unlocked draw) must violate it; each real run must be a behaviour of the model: no number twice, none skipped, own numbers ascending, roll-over count = zeros handed out",
     assumptions=COMMON_ASSUME + ["not one of the listed properties: findings are reported in DESIGN.md 9.7, never as a listed property's violation",
